@@ -16,12 +16,19 @@
     * the relations the `snapshots` engine judges loads with (`SameTopo`, `DisallowedView`, `XmlEquiv`,
       Hw/Topo/Relations.lean): their executable checkers are exact, they are equivalences where claimed,
       and `DisallowedView` + `WF` give the inclusion clauses of the property statement.
+    * (B7) the CPUID-dump reading layer of topology-x86.c (HWLOC_CPUID_PATH; Hw/Io/X86Dump.lean, engine `x86dump`), for
+      EVERY file content / table / query / directory listing: `cpuiddump_read` never stores outside the array it
+      sized in its first pass and returns exactly the fully converted non-comment fgets lines; `cpuiddump_find_by_input`
+      returns the first matching entry or zeros, and is order independent exactly when matching entries agree;
+      `cpuiddump_free` leaks the array iff the table is empty; `hwloc_x86_check_cpuiddump_input` accepts iff the
+      first 17 bytes of the summary are `Architecture: x86` and the `pu` indexes are exactly 0 … n-1;
   That the back ends establish `WF` and the relations on every snapshot / configuration / fault sequence
   is NOT proved: it is checked by these proved oracles on every load of every run.
 -/
 import Hw.Io.LinuxParseLemmas
 import Hw.Io.LinuxNumLemmas
 import Hw.Io.LinuxCgroupLemmas
+import Hw.Io.X86DumpLemmas
 import Hw.Topo.Relations
 namespace Hw.Props.C18
 open Hw Hw.LinuxParse Hw.Topo Hw.LinuxNum Hw.LinuxCgroup
@@ -441,5 +448,122 @@ example : renderMounts [⟨str "proc", str "/proc", str "proc", str "rw"⟩, ⟨
 /-- the shape `C18_meminfo_kernel` speaks about: a per-node meminfo line -/
 example : str "Node 0 " ++ (memKey ++ (List.replicate 7 32 ++ (str "16384" ++ str " kB\n"))) = str "Node 0 MemTotal:        16384 kB\n" ∧
     meminfo (some (str "Node 0 MemTotal:        16384 kB\n")) = some (16384 * 1024) := by decide
+
+/-! ### (B7) the x86 CPUID-dump reading layer: cpuiddump_read / cpuiddump_find_by_input / cpuiddump_free /
+hwloc_x86_check_cpuiddump_input (Hw/Io/X86Dump.lean) -/
+section X86Dump
+open Hw.X86Dump
+
+/-- cpuiddump_read, memory safety for every file content and every initial content of the malloc'ed array: with one cell
+per fgets line of the first pass (what the C allocates), no `entries[nr]` store of the second pass is at or above the
+allocated count (`readFill` answers `none` for such a store), the array keeps its size and the final `nr` is within it -/
+theorem C18_x86dump_read_safe (content : List Byte) (init : List Entry) (hinit : init.length = (lines content).length) :
+    ∃ st, readFill content init = some st ∧ st.mem.length = init.length ∧ st.nr ≤ init.length := by
+  obtain ⟨st, h1, h2, h3, _⟩ := readFill_safe content init hinit
+  exact ⟨st, h1, h2, h3⟩
+
+/-- … and its result: the first `nr` cells are exactly the entries of the non-comment fgets lines on which all 9
+conversions succeeded, in file order, whatever the malloc'ed cells held and whatever partially converted lines stored -/
+theorem C18_x86dump_read_table (content : List Byte) (init : List Entry) (hinit : init.length = (lines content).length) :
+    ∃ st, readFill content init = some st ∧ st.mem.take st.nr = table content := by
+  obtain ⟨st, h1, _, _, h4⟩ := readFill_safe content init hinit
+  exact ⟨st, h1, h4⟩
+
+/-- the line buffer: every fgets result handed to the loop body is non-empty and has at most 127 bytes (the NUL fits in
+`char line[128]`), the C string sscanf reads lies inside it, and the lines concatenated are the file (nothing is skipped
+or read twice; an over-long line is seen in 127-byte pieces) -/
+theorem C18_x86dump_line_buffer (content : List Byte) :
+    (∀ ch ∈ lines content, ch ≠ [] ∧ ch.length + 1 ≤ lineLen ∧ (cstr ch).length ≤ ch.length) ∧
+    (lines content).flatten = content := by
+  refine ⟨fun ch h => ?_, linesAux_flatten lineLen (by decide) _ _ (Nat.le_refl _)⟩
+  have hb := linesAux_bounds lineLen (by decide) _ _ ch h
+  exact ⟨hb.1, by have := hb.2; simp only [lineLen] at this ⊢; omega, LinuxNum.cstr_length_le ch⟩
+
+/-- the number of entries never exceeds the number of lines counted (the allocation is sufficient for every content) -/
+theorem C18_x86dump_nr_le_lines (content : List Byte) : (table content).length ≤ (lines content).length :=
+  table_length_le content
+
+/-- cpuiddump_free: `if (cpuiddump->nr) free(entries)` — the array cpuiddump_read allocated is leaked iff no line was
+converted (empty file, comments only, malformed lines only) -/
+theorem C18_x86dump_free_leaks_iff (content : List Byte) :
+    freeLeaks (table content) = true ↔ ∀ ch ∈ lines content, parseLine ch = none := by
+  simp [freeLeaks, table, List.filterMap_eq_nil_iff]
+
+/-- cpuiddump_find_by_input, every table and query: the answer is the output of the FIRST entry (table order, from index
+0: the code has no rotating start) whose masked inputs equal the query; all zeros exactly when no entry matches -/
+theorem C18_x86dump_find_first (t : List Entry) (q : Regs) :
+    (∃ pre e post, t = pre ++ e :: post ∧ (∀ x ∈ pre, x.matches q = false) ∧ e.matches q = true ∧
+        findByInput t q = e.out) ∨
+    ((∀ x ∈ t, x.matches q = false) ∧ findByInput t q = zeroRegs) := find_first t q
+
+/-- a query sequence depends on the table only (no state is kept between queries) -/
+theorem C18_x86dump_find_stateless (t : List Entry) (qs1 qs2 : List Regs) :
+    findAll t (qs1 ++ qs2) = findAll t qs1 ++ findAll t qs2 := by simp [findAll]
+
+/-- order independence, the exact condition: if all entries matching `q` answer alike (`Unamb`; e.g. unique input keys
+under one mask), every reordering of the table — in particular every rotation, i.e. every start index — answers `q`
+alike … -/
+theorem C18_x86dump_find_order_indep (t t' : List Entry) (q : Regs) (hp : t.Perm t') (hu : Unamb t q) :
+    findByInput t q = findByInput t' q := find_perm t t' q hp hu
+
+theorem C18_x86dump_find_rotation (t : List Entry) (k : Nat) (q : Regs) (hu : Unamb t q) :
+    findByInput (t.drop k ++ t.take k) q = findByInput t q := find_rotation t k q hu
+
+/-- … and the condition is necessary: two entries matching `q` with different outputs are told apart by their order -/
+theorem C18_x86dump_find_order_matters (e1 e2 : Entry) (q : Regs) (h1 : e1.matches q = true) (h2 : e2.matches q = true)
+    (hne : e1.out ≠ e2.out) : findByInput [e1, e2] q ≠ findByInput [e2, e1] q := find_order_matters e1 e2 q h1 h2 hne
+
+/-- the summary-file test (fopen, fgets into `char line[32]`, strncmp 17) is a test of the first 17 bytes of the file -/
+theorem C18_x86dump_summary_iff (file : Option (List Byte)) :
+    summaryOk file = true ↔ ∃ c, file = some c ∧ c.take 17 = archPat := by
+  cases file with
+  | none => simp [summaryOk]
+  | some c => rw [summaryOk_iff]; simp
+
+/-- hwloc_x86_check_cpuiddump_input returns 0 iff its rule holds: the directory opens, the summary starts with
+`Architecture: x86`, and the indexes of the `pu<number>` entries are exactly 0 … n-1 for some n ≥ 1; then
+`nbprocs = n` -/
+theorem C18_x86dump_check_iff (dirOk : Bool) (summary : Option (List Byte)) (names : List (List Byte)) :
+    (checkDir dirOk summary names).ok = true ↔
+      dirOk = true ∧ summaryOk summary = true ∧ ∃ n, 0 < n ∧ ∀ i, i ∈ names.filterMap puIndex ↔ i < n :=
+  checkDir_ok_iff dirOk summary names
+
+theorem C18_x86dump_check_nbprocs (dirOk : Bool) (summary : Option (List Byte)) (names : List (List Byte)) (n : Nat)
+    (hok : (checkDir dirOk summary names).ok = true) (hn : 0 < n) (hmem : ∀ i, i ∈ names.filterMap puIndex ↔ i < n) :
+    nbprocs (checkDir dirOk summary names) = n := by
+  rw [nbprocs, checkDir_idxs_ok dirOk summary names hok]
+  exact contiguous_weight _ n hn hmem
+
+/-- the verdict does not depend on the readdir order -/
+theorem C18_x86dump_check_readdir_order (dirOk : Bool) (summary : Option (List Byte)) (names names' : List (List Byte))
+    (hp : names.Perm names') : (checkDir dirOk summary names).ok = (checkDir dirOk summary names').ok :=
+  checkDir_perm dirOk summary names names' hp
+
+/-! non-vacuity / concrete behaviour -/
+def exDump : List Byte := str "# mask in => out\n1 0 0 0 0 => d 756e6547 6c65746e 49656e69\n5 4 0 1 0 => 0x121 1c0003f 3f 0\nbroken 1 2\n"
+example : (lines exDump).length = 4 ∧ table exDump =
+    [⟨1, 0, 0, 0, 0, 0xd, 0x756e6547, 0x6c65746e, 0x49656e69⟩, ⟨5, 4, 0, 1, 0, 0x121, 0x1c0003f, 0x3f, 0⟩] := by decide
+example : (List.replicate 4 (default : Entry)).length = (lines exDump).length := by decide
+example : findByInput (table exDump) (4, 9, 1, 9) = (0x121, 0x1c0003f, 0x3f, 0) ∧
+    findByInput (table exDump) (4, 0, 2, 0) = zeroRegs := by decide
+/-- comments only: one cell is allocated, none is used, cpuiddump_free leaks it -/
+example : freeLeaks (table (str "# nothing\n")) = true ∧ (lines (str "# nothing\n")).length = 1 := by decide
+/-- `Unamb` holds for a table with unique keys under one mask, and fails for the pair of `find_order_matters` -/
+example : Unamb (table exDump) (4, 0, 1, 0) := by
+  intro e1 h1 e2 h2 m1 m2
+  have ht : table exDump = [⟨1, 0, 0, 0, 0, 0xd, 0x756e6547, 0x6c65746e, 0x49656e69⟩, ⟨5, 4, 0, 1, 0, 0x121, 0x1c0003f, 0x3f, 0⟩] := by decide
+  rw [ht] at h1 h2
+  simp only [List.mem_cons, List.not_mem_nil, or_false] at h1 h2
+  rcases h1 with rfl | rfl <;> rcases h2 with rfl | rfl <;> first | rfl | (exact absurd m1 (by decide)) | (exact absurd m2 (by decide))
+example : (⟨1, 7, 0, 0, 0, 1, 1, 1, 1⟩ : Entry).matches (7, 0, 0, 0) = true ∧ (⟨0, 0, 0, 0, 0, 2, 2, 2, 2⟩ : Entry).matches (7, 0, 0, 0) = true ∧
+    (⟨1, 7, 0, 0, 0, 1, 1, 1, 1⟩ : Entry).out ≠ (⟨0, 0, 0, 0, 0, 2, 2, 2, 2⟩ : Entry).out := by decide
+example : (checkDir true (some (str "Architecture: x86\n")) [str ".", str "..", str "pu1", str "hwloc-cpuid-info", str "pu0"]).ok = true ∧
+    (checkDir true (some (str "Architecture: x86\n")) [str "pu1", str "pu2"]).ok = false ∧
+    (checkDir true (some (str "Architecture: x86\n")) [str "pu", str "pu+1", str "pu 2"]).ok = true ∧
+    (checkDir true (some (str "Architecture: ia64\n")) [str "pu0"]).ok = false ∧
+    nbprocs (checkDir true (some (str "Architecture: x86_64")) [str "pu1", str "pu0", str "pu2x"]) = 2 := by decide
+example : [str "pu1", str "pu0"].Perm [str "pu0", str "pu1"] := List.Perm.swap _ _ _
+
+end X86Dump
 
 end Hw.Props.C18
